@@ -466,6 +466,11 @@ func init() {
 					return nil, err
 				}
 				roots = append(roots, root{v: e}, root{v: e.ForgetOrder()})
+				pe, err := sk.Group().Random(r)
+				if err != nil {
+					return nil, err
+				}
+				roots = append(roots, root{v: pe}, root{v: pe.ForgetOrder()})
 			}
 		}
 		return roots, nil
@@ -695,7 +700,7 @@ func init() {
 			if err != nil {
 				return nil, err
 			}
-			roots = append(roots, root{v: sh})
+			roots = append(roots, root{v: sh}, root{v: sh.PublicKeyMaterial()})
 		}
 		return roots, nil
 	})
@@ -729,6 +734,10 @@ func regSigTypes() {
 	reg[*mpcbls.PublicMaterial[g1, g1f, g2, g2f, gt, bsc]](famShards, "", b)
 }
 
+func hierarchicalSample() (any, error) {
+	return hierarchical.NewHierarchicalConjunctiveThresholdAccessStructure(hierarchical.WithLevel(1, 11, 12, 13, 14, 15, 16, 17, 18))
+}
+
 func regAccessTypes() {
 	src := "gen/access"
 	reg[*threshold.Threshold](famAccess, "", src)
@@ -749,6 +758,7 @@ func regGenerated() {
 	regCurveTypes()
 	regNumberTypes()
 	regSigTypes()
+	regKeyAgreementTypes()
 }
 
 var _ sharing.ID
